@@ -7,6 +7,7 @@ pub fn run(name: &str) -> bool {
     match name {
         "worlds" => worlds(),
         "oracle" => oracle(),
+        "seed" => seed(),
         _ => { eprintln!("unknown gate {}", name); false }
     }
 }
@@ -111,5 +112,49 @@ fn oracle() -> bool {
         let _ = parses;
     }
     if ok { println!("gate oracle: ok ({} texts)", crate::oracle::ALL.len()); }
+    ok
+}
+
+/// seed_file_state(fresh data) == one real analyze_file on an empty index, for every table text
+fn seed() -> bool {
+    use crate::h_hist::{seed_file_state, file_state_is, PC, PU};
+    let mut ok = true;
+    for (name, text, _parses) in crate::oracle::ALL.iter() {
+        let p = if name.starts_with("C_") || name.starts_with("W_") || name.starts_with("D_U_CONF") { PC } else { PU };
+        let real = FixtureDatabase::new();
+        real.analyze_file(PathBuf::from(p), text);
+        // the fresh data of this text, read back from the real analysis (the generated fresh_* functions are the same
+        // data, produced by the same call in tools/astgen.py)
+        let mut defs = Vec::new();
+        for e in real.definitions.iter() { for d in e.value().iter() { defs.push(d.clone()); } }
+        defs.sort_by_key(|d| d.line);
+        let mut names: Vec<String> = real.file_definitions.get(&PathBuf::from(p)).map(|s| s.value().iter().cloned().collect()).unwrap_or_default();
+        names.sort();
+        let mut imports: Vec<String> = real.imports.get(&PathBuf::from(p)).map(|s| s.value().iter().cloned().collect()).unwrap_or_default();
+        imports.sort();
+        let fr = crate::oracle::Fresh {
+            defs, usages: real.usages.get(&PathBuf::from(p)).map(|u| u.value().clone()).unwrap_or_default(),
+            undeclared: real.get_undeclared_fixtures(Path::new(p)), imports, def_names: names,
+            has_imports_entry: real.imports.contains_key(&PathBuf::from(p)),
+        };
+        let seeded = FixtureDatabase::new();
+        seed_file_state(&seeded, p, text, &fr);
+        if !file_state_is(&seeded, p, &fr, true) { eprintln!("gate seed: seeded state differs from its own data for {}", name); ok = false; }
+        if !file_state_is(&real, p, &fr, true) { eprintln!("gate seed: real state differs for {}", name); ok = false; }
+        // beyond the per-file records: caches and version counter the analysis leaves behind
+        let v1 = real.definitions_version.load(std::sync::atomic::Ordering::SeqCst);
+        let v2 = seeded.definitions_version.load(std::sync::atomic::Ordering::SeqCst);
+        if v1 != v2 { eprintln!("gate seed: definitions_version {} vs {} for {}", v1, v2, name); ok = false; }
+        if real.line_index_cache.contains_key(&PathBuf::from(p)) != seeded.line_index_cache.contains_key(&PathBuf::from(p)) {
+            eprintln!("gate seed: line_index_cache presence differs for {}", name); ok = false;
+        }
+        if real.file_cache.get(&PathBuf::from(p)).map(|t| t.value().as_str().to_string()) != seeded.file_cache.get(&PathBuf::from(p)).map(|t| t.value().as_str().to_string()) {
+            eprintln!("gate seed: file_cache differs for {}", name); ok = false;
+        }
+        let und_r = real.undeclared_fixtures.get(&PathBuf::from(p)).map(|u| u.value().len());
+        let und_s = seeded.undeclared_fixtures.get(&PathBuf::from(p)).map(|u| u.value().len());
+        if und_r != und_s { eprintln!("gate seed: undeclared entry differs for {} ({:?} vs {:?})", name, und_r, und_s); ok = false; }
+    }
+    if ok { println!("gate seed: ok ({} texts)", crate::oracle::ALL.len()); }
     ok
 }
